@@ -124,8 +124,8 @@ def render(case):
             out = itp_lines
             out += ["[ moleculetype ]", "%s %d" % (block["name"], block["nrexcl"]), "[ atoms ]"]
             for idx, atom in enumerate(block["atoms"]):
-                out.append("%d %s 1 %s %s %d %s %s" % (idx + 1, atom["atype"], block["name"], atom["name"], atom.get("cg", 1),
-                                                       atom.get("charge", "0.0"), atom.get("mass", "45.0")))
+                out.append("%d %s %d %s %s %d %s %s" % (idx + 1, atom["atype"], atom.get("resid", 1), atom.get("resname", block["name"]),
+                                                        atom["name"], atom.get("cg", 1), atom.get("charge", "0.0"), atom.get("mass", "45.0")))
             last = None
             for section, atoms, params, meta in block["ixns"]:
                 if section != last:
@@ -189,8 +189,12 @@ def build(case, tmpdir, order=("ff", "itp")):
             paths.append(pathlib.Path(path))
     force_field = load_ff_library("verif", None, paths)
     graph = nx.Graph()
+    from_itp = {int(k): v for k, v in case["graph"].get("from_itp", {}).items()}
     for key, resid, resname in case["graph"]["nodes"]:
-        graph.add_node(key, resid=resid, resname=resname)
+        if key in from_itp:
+            graph.add_node(key, resid=resid, resname=resname, from_itp=from_itp[key])
+        else:
+            graph.add_node(key, resid=resid, resname=resname)
     for u, v, linktype in case["graph"]["edges"]:
         if linktype is None:
             graph.add_edge(u, v)
@@ -355,6 +359,13 @@ def add_dangling(rng, block):
             # a multi-term dihedral: two lines on the same atoms
             extra.append(["dihedrals", atoms, ["9", "0", str(rng.randint(1, 9)), "1"], {}])
             extra.append(["dihedrals", atoms, ["9", "180", str(rng.randint(1, 9)), "2"], {}])
+    # every other section kind on its own (each becomes a link of its own: pairs-only, exclusions-only, constraints-only):
+    # one atom of the residue itself, one atom of the next residue
+    for section, params, prob in (("pairs", ["1"], 0.3), ("exclusions", [], 0.2), ("constraints", ["1", "0.%d" % rng.randint(10, 60)], 0.2)):
+        if rng.random() < prob:
+            atoms = [rng.randrange(n), n + rng.randrange(n)]
+            if not any(x[1] == atoms for x in extra):
+                extra.append([section, atoms, list(params), {}])
     # sections must stay grouped: append each new interaction after the last one of its section
     ixns = list(block["ixns"])
     for item in extra:
